@@ -30,6 +30,8 @@ META = dict(
                 settings='<= 3x3 connectors', paths_per_instance='estimated <= 2500 (quick) / <= 12000 (thorough); larger instances are listed as deferred',
                 matrix_entries_onto='any non-negative integer'),
     outside=['instances with more than 6 declared variables or more than 20000 paths (skipped, listed)',
+             'state carried between problems beyond the interference instances (auxiliary, concrete: settings B after settings A in one '
+             'cache, manager A used again while manager B is alive, the encoder object of A serving B; <= 120 declared vectors per pattern)',
              'pattern encoders on settings they reject with InvalidPatternEncoder (documented)',
              'constraint-violation imputers: documented to return the all(-1) marker instead of a valid matrix; for them '
              'the obligation is "valid matrix or marker with the clamped vector" and onto-ness is not demanded',
